@@ -266,14 +266,38 @@ MUTANTS += (
      "type Sq8 implements Shape8 {\n  ff: Int\n}\n\n"
      "extend type %(q)s {\n  m_sq8: Sq8\n}"),
 )
+MUTANTS += (
+    # arguments are inputs, hence invariant: the implementation may not ask
+    # for more than the interface promises (non-null where the interface says
+    # nullable, at the top and inside a list) -- two violations
+    ("narrowed-arguments",
+     "interface Srch10 {\n  search(term: String, tags: [String]): String\n}"
+     "\n\ntype Doc10 implements Srch10 {\n  search(term: String!, tags: "
+     "[String!]): String\n}\n\nextend type %(q)s {\n  m_doc10: Doc10\n}"),
+    # ... nor accept another (wider) type than the interface declares
+    ("widened-argument",
+     "interface Srch11 {\n  find(id: ID!, n: Int!): String\n}\n\n"
+     "type Doc11 implements Srch11 {\n  find(id: ID, n: Float!): String\n}"
+     "\n\nextend type %(q)s {\n  m_doc11: Doc11\n}"),
+    # an input object holding an output type next to an interface type used
+    # as input
+    ("interface-in-input",
+     "interface Face12 {\n  a: Int\n}\n\ntype Impl12 implements Face12 {\n"
+     "  a: Int\n}\n\ninput In12 {\n  f: Face12\n  g: Int\n}\n\n"
+     "extend type %(q)s {\n  m_in12(a: In12): Impl12\n}"),
+    # a union listing a non-object member (an interface), and a scalar
+    ("union-of-non-objects",
+     "interface Face13 {\n  a: Int\n}\n\ntype Impl13 implements Face13 {\n"
+     "  a: Int\n}\n\nunion U13 = Impl13 | Face13\n\n"
+     "extend type %(q)s {\n  m_u13: U13\n}"),
+)
 # violations each labelled mutant injects ("reporting all violations together")
 MUTANT_COUNTS = {"three-on-one-pair": 3, "interface-own-and-implementation": 2,
-                 "two-on-one-field": 2}
+                 "two-on-one-field": 2, "narrowed-arguments": 2,
+                 "widened-argument": 2}
 # documents whose acceptance is a violation whatever else they hold (the
 # older ones only feed the order / message-set comparison)
-MUTANT_MUST_REJECT = ("three-on-one-pair", "extra-required-arg",
-                      "covariance-both-directions",
-                      "interface-own-and-implementation", "two-on-one-field")
+MUTANT_MUST_REJECT = tuple(m[0] for m in MUTANTS)
 
 
 def run_machine(draws, state, tier):
@@ -448,11 +472,77 @@ def run_machine(draws, state, tier):
         shared_args = sorted(a for a, fs in by_arg.items() if len(fs) >= 2)
         for step in range(n_ops):
             op = st.weighted((5, 3, 1, 2, 4 if shared_args else 0, 1, 2, 1,
-                              1), "op")
+                              1, 2), "op")
             # 0 reassign, 1 check(validate), 2 check(query), 3 shuffled
             # rebuild, 4 one callable registered on several fields, 5 derived
             # verdict, 6 read-only use, 7 rebase on an extension, 8 refused
             # registration
+            if op == 9:
+                # a registration on a CLONE of the live schema: the clone's
+                # verdict is that of a fresh schema carrying the live
+                # assignment plus this one, and the live schema -- validated
+                # from scratch, no memo involved -- is what it was
+                fn = CALLABLES[st.below(len(CALLABLES), "callable")]
+                t, f = targets[st.below(len(targets), "target")]
+                how = st.below(3, "fork_route")
+                seq.append(("fork-reassign", fn.__name__, t, f, how))
+                fork_model = {
+                    "fields": dict(model["fields"]),
+                    "types": dict(model["types"]), "subs": dict(model["subs"]),
+                    "global": model["global"], "exts": list(model["exts"])}
+                try:
+                    if st.below(2, "fork_prevalidate"):
+                        _verdict(live)
+                        seq[-1] = seq[-1] + ("prevalidated",)
+                    fork = live.clone()
+                    if how == 0:
+                        fork.register_resolver(t, f, fn, allow_override=True)
+                        fork_model["fields"][(t, f)] = fn
+                    elif how == 1:
+                        fork.register_default_resolver(t, fn,
+                                                       allow_override=True)
+                        fork_model["types"][t] = fn
+                    else:
+                        fork.default_resolver = fn
+                        fork_model["global"] = fn
+                    got = _verdict(fork)
+                    from py_gql.schema.validation import validate_schema
+                    try:
+                        validate_schema(live)
+                        got_live = ("valid", ())
+                    except SchemaValidationError as err:
+                        got_live = ("invalid",
+                                    tuple(sorted(str(e) for e in err.errors)))
+                except Exception as err:  # noqa: B902
+                    V.append(Violation(
+                        P, "stale_verdict", ("fork-reassign", "raised"),
+                        "step %d: reassigning on a clone of the live schema "
+                        "raised %r" % (step, err)))
+                    break
+                want = _fresh_verdict(sdl, fork_model)
+                want_live = _fresh_verdict(sdl, model)
+                res.count("fork_reassignments")
+                if got != want:
+                    V.append(Violation(
+                        P, "stale_verdict",
+                        ("fork-reassign", "accepted-invalid"
+                         if got[0] == "valid" and want[0] != "valid"
+                         else "differs"),
+                        "step %d: a clone of the live schema given %s on "
+                        "%s.%s is %s %r, a fresh schema with that assignment "
+                        "is %s %r" % (step, fn.__name__, t, f, got[0],
+                                      got[1][:2], want[0], want[1][:2])))
+                    break
+                if got_live != want_live:
+                    V.append(Violation(
+                        P, "stale_verdict", ("fork-reassign", "source-changed"),
+                        "step %d: after a registration on its CLONE the live "
+                        "schema validates as %s %r, a fresh schema with the "
+                        "live assignment as %s %r" % (
+                            step, got_live[0], got_live[1][:2], want_live[0],
+                            want_live[1][:2])))
+                    break
+                continue
             if op == 6:
                 # activity that reads the schema and must leave the next
                 # verdict alone
@@ -656,7 +746,9 @@ def run_machine(draws, state, tier):
                     since = []
                     for s in reversed(seq[:-1]):
                         if s[0] in ("check", "rebase-extend") or (
-                                s[0] == "use" and s[1].startswith("diff")):
+                                s[0] == "use" and s[1].startswith("diff")
+                        ) or (s[0] == "fork-reassign"
+                              and s[-1] == "prevalidated"):
                             # diff_schema validates both of its arguments
                             # (extend_schema validates its result: the new
                             # live schema starts from a computed verdict)
